@@ -275,3 +275,8 @@ mod tests {
         assert_eq!(&rest, b"-----hello");
     }
 }
+
+// verification hook (add-only, inert unless built by `cargo kani`, which sets --cfg kani)
+#[cfg(kani)]
+#[path = "/verif/kani/base64_decoder_harness.rs"]
+mod verif_kani;
